@@ -912,8 +912,13 @@ class xRFM:
         # determine n_classes and convert automatically
         if is_class:
             if y.is_floating_point():
+                # already binarized / one-hot targets: float32 columns, for the validation targets as well
+                y = y.float()
+                y_val = y_val.float()
                 if len(y.shape) == 1:
                     y = y[:, None]
+                if len(y_val.shape) == 1:
+                    y_val = y_val[:, None]
                 assert len(y.shape) == 2
 
                 self.n_classes_ = max(2, y.shape[1])
